@@ -1,19 +1,19 @@
 #!/bin/sh
-# tools/confirm_seed.sh <Cxx-n> : independently confirm a seeded defect in its scratch worktree, then remove the worktree.
-id="$1"; wt=/tmp/wt/$id; out=/tmp/seeded_out/$id
+# tools/confirm_seed.sh <Cxx-n> : independently confirm a seeded defect from its patch.diff in a FRESH scratch
+# worktree (no git stash: the stash is shared between worktrees), then remove that worktree.
+id="$1"; out=/tmp/seeded_out/$id; wt=/tmp/wt/confirm-$id
 export TMPDIR=/tmp/agent_tmp/confirm-$id; mkdir -p "$TMPDIR"
 log=$out/confirm.log; : > "$log"
+git -C /repo worktree add -f "$wt" HEAD -q || exit 2
 cd "$wt" || exit 2
-git -C "$wt" diff > "$out/patch.confirmed.diff"
-if ! cmp -s "$out/patch.confirmed.diff" "$out/patch.diff"; then echo "NOTE: worktree diff differs from patch.diff; using worktree diff" >> "$log"; cp "$out/patch.confirmed.diff" "$out/patch.diff"; fi
+if ! git apply "$out/patch.diff" 2>>"$log"; then echo "RESULT id=$id PATCH DOES NOT APPLY" | tee -a "$log"; cd /; git -C /repo worktree remove --force "$wt"; exit 1; fi
 run() { PYTHONPATH="$wt" /venv/bin/python -m pytest -q -p no:cacheprovider -x "$out/demo_test.py" >> "$log" 2>&1; }
 echo "== demo WITH patch" >> "$log"; run; with=$?
 echo "== stable tests WITH patch" >> "$log"
 PYTHONPATH="$wt" /venv/bin/python -m pytest -q -p no:cacheprovider --timeout=900 tests/test_binding_filter.py tests/test_cwl_loop.py tests/test_recovery.py tests/test_recovery_utils.py tests/test_schema.py tests/test_scheduler.py::test_hardware tests/test_connector.py::test_command_template "tests/test_translator.py::test_recursive_deployments" tests/test_translator.py::test_workdir_inheritance tests/test_translator.py::test_dot_product_transformer_raises_error 2>&1 | tail -3 >> "$log"
-git -C "$wt" stash -q
+git apply -R "$out/patch.diff"
 echo "== demo WITHOUT patch" >> "$log"; run; without=$?
-git -C "$wt" stash pop -q
-stable=$(grep -E "^[0-9]+ passed|passed" "$log" | grep -E "171 passed" | head -1)
+stable=$(grep -E "171 passed" "$log" | head -1)
 echo "RESULT id=$id demo_with_patch_exit=$with demo_without_patch_exit=$without stable='$stable'" >> "$log"
 tail -1 "$log"
 cd /; git -C /repo worktree remove --force "$wt"; rm -rf "$TMPDIR"
